@@ -696,6 +696,40 @@ fn random_lists(rng: &mut Prng) -> Vec<Vec<u64>> {
         .collect()
 }
 
+/// reduced alphabet for the exhaustive 2 threads × ≤ 2 operations block of
+/// the thorough tier
+fn small_alphabet() -> Vec<Op> {
+    vec![
+        Op::Get(0, 1),
+        Op::FfiGet(0, 3),
+        Op::Push(0, 7),
+        Op::Push(1, 8),
+        Op::Concat(0, 1),
+        Op::Concat(0, 0),
+        Op::Contains(0, 7),
+        Op::Swap(0, 0, 1),
+        Op::Eq(0, 1),
+        Op::Eq(1, 0),
+        Op::Len(0),
+    ]
+}
+
+/// all programs of one or two operations over the small alphabet
+fn small_programs() -> Vec<Vec<Op>> {
+    let a = small_alphabet();
+    let mut out: Vec<Vec<Op>> = a.iter().map(|o| vec![o.clone()]).collect();
+    for x in &a {
+        for y in &a {
+            out.push(vec![x.clone(), y.clone()]);
+        }
+    }
+    out
+}
+
+fn n_random(thorough: bool) -> u64 {
+    if thorough { 6_000 } else { 2_500 }
+}
+
 /// case `index` of the run
 fn case_for(seed: u64, thorough: bool, index: u64) -> Case {
     let a = alphabet();
@@ -707,23 +741,33 @@ fn case_for(seed: u64, thorough: bool, index: u64) -> Case {
             progs: vec![vec![a[(index / na) as usize].clone()], vec![a[(index % na) as usize].clone()]],
         };
     }
-    let mut rng = Prng::for_case(seed, index);
-    let threads = if thorough && rng.chance(1, 3) { 3 } else { 2 };
-    let max_ops = if thorough { 3 } else { 2 };
-    let mut progs = vec![];
-    for _ in 0..threads {
-        // keep the number of interleavings in check: 3 threads get ≤ 2 ops
-        let cap = if threads == 3 { 2 } else { max_ops };
-        let n = 1 + rng.below(cap) as usize;
-        let p: Vec<Op> = (0..n).map(|_| random_op(&mut rng)).collect();
-        progs.push(with_drops(&p, &mut rng));
+    let index = index - na * na;
+    // 2. random cases
+    if index < n_random(thorough) {
+        let mut rng = Prng::for_case(seed, index);
+        let threads = if thorough && rng.chance(1, 3) { 3 } else { 2 };
+        let max_ops = if thorough { 3 } else { 2 };
+        let mut progs = vec![];
+        for _ in 0..threads {
+            // keep the number of interleavings in check: 3 threads get ≤ 2 ops
+            let cap = if threads == 3 { 2 } else { max_ops };
+            let n = 1 + rng.below(cap) as usize;
+            let p: Vec<Op> = (0..n).map(|_| random_op(&mut rng)).collect();
+            progs.push(with_drops(&p, &mut rng));
+        }
+        return Case { lists: random_lists(&mut rng), progs };
     }
-    Case { lists: random_lists(&mut rng), progs }
+    // 3. (thorough) every pair of programs of ≤ 2 operations over the small alphabet
+    let index = index - n_random(thorough);
+    let sp = small_programs();
+    let n = sp.len() as u64;
+    Case { lists: base_lists(), progs: vec![sp[(index / n) as usize].clone(), sp[(index % n) as usize].clone()] }
 }
 
 fn total_cases(thorough: bool) -> u64 {
     let na = alphabet().len() as u64;
-    na * na + if thorough { 6000 } else { 500 }
+    let sp = small_programs().len() as u64;
+    na * na + n_random(thorough) + if thorough { sp * sp } else { 0 }
 }
 
 // ---------------------------------------------------------------- running cases
@@ -840,6 +884,140 @@ fn run_case(case: &Case, drv: Option<&mut Driver>, rep: &mut Report, limit: usiz
     }
 }
 
+// ---------------------------------------------------------------- stress (search mode)
+
+/// Free-running races (no scheduler: the threads are not attached to a
+/// session, so every hook returns immediately): two threads released by a
+/// spin barrier run one or two operations each on fresh lists at a capacity
+/// boundary; the results and final contents must be those of some sequential
+/// order. Finds lock-scope defects the schedule points cannot see (code that
+/// touches the buffer outside every guard without passing a hook), by chance.
+fn stress_case(seed: u64, index: u64) -> Case {
+    let mut rng = Prng::for_case(seed ^ 0x5712_E55, index);
+    let ops = [
+        Op::Push(0, 7),
+        Op::Push(0, 8),
+        Op::Swap(0, 0, 1),
+        Op::Swap(0, 1, 3),
+        Op::Get(0, 1),
+        Op::FfiGet(0, 0),
+        Op::Contains(0, 2),
+        Op::Len(0),
+        Op::Push(1, 9),
+        Op::Swap(1, 0, 1),
+    ];
+    let mut progs = vec![];
+    for t in 0..2 {
+        let n = 1 + rng.below(2) as usize;
+        let mut p: Vec<Op> = (0..n).map(|_| rng.pick(&ops).clone()).collect();
+        if t == 0 && !p.iter().any(|o| matches!(o, Op::Push(..))) {
+            p[0] = Op::Push(0, 7);
+        }
+        progs.push(p);
+    }
+    let len0 = *rng.pick(&[4usize, 4, 4, 8]);
+    Case { lists: vec![(1..=len0 as u64).collect(), vec![5, 6, 7, 8]], progs }
+}
+
+fn run_stress_trial(case: &Case, spin: [u32; 2]) -> (Vec<Vec<Res>>, Vec<Vec<u64>>) {
+    use std::sync::atomic::{AtomicUsize, Ordering};
+    let shared: Vec<List<u64>> = case.lists.iter().map(|l| List::from(l.clone())).collect();
+    let gate = std::sync::Arc::new(AtomicUsize::new(0));
+    let mut joins = vec![];
+    for t in 0..2 {
+        let lists: Vec<List<u64>> = shared.iter().map(|l| l.clone()).collect();
+        let prog = case.progs[t].clone();
+        let gate = gate.clone();
+        let sp = spin[t];
+        joins.push(std::thread::spawn(move || {
+            gate.fetch_add(1, Ordering::SeqCst);
+            while gate.load(Ordering::SeqCst) < 2 {
+                std::hint::spin_loop();
+            }
+            for _ in 0..sp {
+                std::hint::spin_loop();
+            }
+            let mut out = vec![];
+            for op in &prog {
+                out.push(match op {
+                    Op::Get(l, i) => Res::Opt(lists[*l].get(*i)),
+                    Op::FfiGet(l, i) => Res::Opt(hk::ffi_get_u64(&lists[*l], *i as u64)),
+                    Op::Push(l, v) => {
+                        lists[*l].push(*v);
+                        Res::Unit
+                    }
+                    Op::Contains(l, v) => Res::Bool(hk::contains_owned_u64(&lists[*l], *v)),
+                    Op::Swap(l, i, j) => {
+                        lists[*l].swap(*i, *j);
+                        Res::Unit
+                    }
+                    Op::Len(l) => Res::Nat(lists[*l].len()),
+                    _ => Res::Unit,
+                });
+            }
+            out
+        }));
+    }
+    let results: Vec<Vec<Res>> = joins.into_iter().map(|j| j.join().unwrap_or_default()).collect();
+    let lists = shared.iter().map(|l| l.to_vec()).collect();
+    (results, lists)
+}
+
+/// some merge of the two programs explains results and final lists
+fn some_order_explains(case: &Case, results: &[Vec<Res>], lists: &[Vec<u64>]) -> bool {
+    fn go(case: &Case, results: &[Vec<Res>], fin: &[Vec<u64>], pos: &mut [usize; 2], cur: &mut Vec<Vec<u64>>) -> bool {
+        if pos[0] == case.progs[0].len() && pos[1] == case.progs[1].len() {
+            return cur.as_slice() == fin;
+        }
+        for t in 0..2 {
+            if pos[t] < case.progs[t].len() {
+                let saved = cur.clone();
+                let r = spec_op(cur, &case.progs[t][pos[t]]);
+                if r == results[t][pos[t]] {
+                    pos[t] += 1;
+                    if go(case, results, fin, pos, cur) {
+                        return true;
+                    }
+                    pos[t] -= 1;
+                }
+                *cur = saved;
+            }
+        }
+        false
+    }
+    results.len() == 2
+        && results[0].len() == case.progs[0].len()
+        && results[1].len() == case.progs[1].len()
+        && go(case, results, lists, &mut [0, 0], &mut case.lists.clone())
+}
+
+fn stress_batch(seed: u64, off: u64, from: u64, n: u64, rep: &mut Report) {
+    for k in from..from + n {
+        let i = off + k;
+        if k % 64 == 0 {
+            println!("START {k}");
+            use std::io::Write;
+            std::io::stdout().flush().ok();
+        }
+        let case = stress_case(seed, i / 64);
+        let mut rng = Prng::for_case(seed ^ 0xABCD, i);
+        let spin = [rng.below(60) as u32, rng.below(60) as u32];
+        let (results, lists) = run_stress_trial(&case, spin);
+        rep.evaluations += 1;
+        rep.hist("stress-case", case.kinds());
+        if !some_order_explains(&case, &results, &lists) {
+            let res: Vec<String> =
+                results.iter().map(|r| r.iter().map(|x| x.text()).collect::<Vec<_>>().join(",")).collect();
+            rep.violation(
+                "free-running race: results / final contents are not those of any sequential order of the operations",
+                &format!("stress-not-linearizable {}", case.kinds()),
+                json!({"lists": case.lists_text(), "progs": case.progs_text(), "stress": true, "trial": i, "seed": seed,
+                       "results": res.join("/"), "final": lists.iter().map(|l| dots(l)).collect::<Vec<_>>().join("/")}),
+            );
+        }
+    }
+}
+
 fn bucket(n: usize) -> String {
     match n {
         0..=1 => "1".into(),
@@ -890,15 +1068,49 @@ fn main() {
                 },
             );
             rep.notes.push(format!(
-                "cases: every pair of single operations from a {}-operation alphabet on two shared lists (one full, one with room), then {} random cases (2{} threads × ≤ {} ops, + handle drops); every maximal schedule of every case is executed on the real code",
+                "cases: every pair of single operations from a {}-operation alphabet on two shared lists (one full, one with room), then {} random cases (2{} threads × ≤ {} ops, + handle drops){}; every maximal schedule of every case is executed on the real code",
                 alphabet().len(),
-                total - (alphabet().len() as u64).pow(2),
+                n_random(thorough),
                 if thorough { "–3" } else { "" },
                 if thorough { 3 } else { 2 },
+                if thorough { format!(", then every pair of the {} programs of ≤ 2 operations over an {}-operation alphabet", small_programs().len(), small_alphabet().len()) } else { String::new() },
             ));
             if !model {
                 rep.notes.push("run without the Lean model (property oracle only)".into());
             }
+            let stress: u64 = args
+                .iter()
+                .position(|a| a == "--stress")
+                .and_then(|i| args.get(i + 1))
+                .and_then(|s| s.parse().ok())
+                .unwrap_or(if thorough { 40_000 } else { 0 });
+            if stress > 0 {
+                let crashes = std::cell::Cell::new(0u32);
+                let mut off = 0u64;
+                while off < stress && crashes.get() < 4 {
+                    let chunk = 20_000.min(stress - off);
+                    let off_s = off.to_string();
+                    run_batches(&["stress", &seed_s, &off_s], chunk, 20_000, Duration::from_secs(600), &mut rep, |rep: &mut Report, idx: u64, how: &Ended| {
+                        crashes.set(crashes.get() + 1);
+                        let c = stress_case(seed, (off + idx) / 64);
+                        rep.violation(
+                            "the process died during a free-running race of these operations (memory corruption)",
+                            &format!("stress-crash {}", c.kinds()),
+                            json!({"lists": c.lists_text(), "progs": c.progs_text(), "stress": true, "trial": off + idx, "seed": seed, "ended": format!("{how:?}")}),
+                        );
+                    });
+                    off += chunk;
+                }
+                rep.notes.push(format!("stress: {stress} free-running races of 2 threads x 1-2 operations (push/swap/get/contains/len) on lists at a capacity boundary, each checked against every sequential order"));
+            }
+        }
+        Some("worker") if args[2] == "stress" => {
+            // worker stress <seed> <off> <from> <n>
+            let seed: u64 = args[3].parse().unwrap();
+            let off: u64 = args[4].parse().unwrap();
+            let from: u64 = args[5].parse().unwrap();
+            let n: u64 = args[6].parse().unwrap();
+            stress_batch(seed, off, from, n, &mut rep);
         }
         Some("worker") => {
             // worker cases <seed> <tier> <model> <from> <n>
@@ -920,6 +1132,29 @@ fn main() {
         Some("replay") => {
             let v: serde_json::Value = serde_json::from_str(&args[2]).expect("json");
             let case = Case::parse(v["lists"].as_str().unwrap_or(""), v["progs"].as_str().unwrap_or("")).expect("case");
+            if v["stress"].as_bool() == Some(true) {
+                // probabilistic: repeat the race
+                let seed = v["seed"].as_u64().unwrap_or(1);
+                let mut hits = 0;
+                for i in 0..200_000u64 {
+                    let mut rng = Prng::for_case(seed ^ 0xABCD, i);
+                    let spin = [rng.below(60) as u32, rng.below(60) as u32];
+                    let (results, lists) = run_stress_trial(&case, spin);
+                    rep.evaluations += 1;
+                    if !some_order_explains(&case, &results, &lists) {
+                        hits += 1;
+                        rep.violation(
+                            "free-running race: results / final contents are not those of any sequential order of the operations",
+                            &format!("stress-not-linearizable {}", case.kinds()),
+                            json!({"lists": case.lists_text(), "progs": case.progs_text(), "stress": true, "trial": i}),
+                        );
+                        break;
+                    }
+                }
+                println!("REPLAY stress hits={hits}");
+                rep.emit();
+                return;
+            }
             match v["sched"].as_str() {
                 Some(s) => {
                     let sched: Vec<usize> = s.bytes().map(|b| (b - b'0') as usize).collect();
